@@ -67,6 +67,24 @@ class Gauge:
                 if isinstance(d, (ast.For, ast.comprehension)):
                     extra.append(self.g(d.iter))
                     continue
+                if isinstance(d, ast.Assign) and len(d.targets) == 1 and isinstance(d.targets[0], (ast.Tuple, ast.List)):
+                    # a, b = e1, e2   /   a, b = self.helper()  with  return e1, e2
+                    tg = d.targets[0]
+                    idx = [i for i, t in enumerate(tg.elts) if isinstance(t, ast.Name) and t.id == name]
+                    val = d.value
+                    sub = self
+                    if isinstance(val, ast.Call) and isinstance(val.func, ast.Attribute) and isinstance(val.func.value, ast.Name) \
+                            and val.func.value.id == self.sn and not val.args and self.fi.cls is not None and self.q_text is None:
+                        callee = self.fi.cls.lookup(val.func.attr)
+                        rets_ = [r for r in walk_local(callee.node) if isinstance(r, ast.Return)] if callee is not None else []
+                        if len(rets_) == 1 and isinstance(rets_[0].value, ast.Tuple) and getattr(self, "_depth", 0) < 4:
+                            sub = Gauge(callee, self.q, self.qd)
+                            sub._depth = getattr(self, "_depth", 0) + 1
+                            val = rets_[0].value
+                    if len(idx) == 1 and isinstance(val, (ast.Tuple, ast.List)) and len(val.elts) == len(tg.elts):
+                        extra.append(sub.g(val.elts[idx[0]]))
+                        continue
+                    return (None, MIXED)
                 if not (isinstance(d, ast.Assign) and len(d.targets) == 1 and isinstance(d.targets[0], ast.Name)):
                     return (None, MIXED)
                 v = d.value
@@ -491,6 +509,12 @@ def r86_r87(ctx, res):
     a, b = m.params[:2]
     pairings = set()
     ok = False
+    if len(rets) == 1 and rets[0].value is not None:
+        from ..astutil import inline_self_calls
+        import copy as _copy
+        r0 = _copy.copy(rets[0])
+        r0.value = inline_self_calls(repo.cls("Segment").lookup, m.self_name, rets[0].value)  # self._has_endpoints(p, q) read as its body
+        rets = [r0]
     if len(rets) == 1 and isinstance(rets[0].value, ast.BoolOp):
         top = rets[0].value
         for alt in (top.values if isinstance(top.op, ast.Or) else [top]):
